@@ -158,10 +158,11 @@ func parseHeaders(h *protocol.ResponseHeader, buf []byte) (int, error) {
 					continue
 				}
 				if utils.CaseInsensitiveCompare(s.Key, bytestr.StrConnection) {
-					if bytes.Equal(s.Value, bytestr.StrClose) {
+					// connection options are a list of case-insensitive tokens, and a
+					// later Connection line does not take back an earlier "close"
+					if ext.HasHeaderValue(s.Value, bytestr.StrClose) {
 						h.SetConnectionClose(true)
 					} else {
-						h.SetConnectionClose(false)
 						h.AddArgBytes(s.Key, s.Value, protocol.ArgsHasValue)
 					}
 					continue
